@@ -27,9 +27,12 @@
     parent log plus the colour mode; a call on it appends the hand model's lowering `Mode.lower` of that call (the
     lowering itself — src/mono_font/draw_target.rs — is hand-modelled in EG.Model.Font and checked by the C14 streams,
     not regenerated).
-  * NOT REGENERATED (bound here to the hand model, checked by correspondence only): `draw_string_binary` /
-    `line_elements` (the `from_fn` glyph loop), `StrGlyphMapping::chars` (the `from_fn(..).flatten()` range decoder),
-    `Image::new(&glyph, p).draw` (C09's image model).
+  * `core::iter::from_fn(move || ..)` is the captured state plus the closure as a step function (`FromFn`); a `for`
+    over it whose body may `return` runs on explicit `fuel` (`for_from_fn`; a function containing such a loop, and
+    its callers, take `fuel` as their first parameter).
+  * NOT REGENERATED (bound here to the hand model, checked by correspondence only): `StrGlyphMapping::chars` (the
+    `from_fn(..).flatten()` range decoder), `Image::new(&glyph, p).draw` (C09's image model: guard of
+    `draw_sub_image` + one `fill_contiguous` of the cell), `MonoFontDrawTarget`'s lowering (`Mode.lower`).
 -/
 import EG.Model.TextLayout
 import EG.Model.RectSrcPrelude
@@ -204,10 +207,61 @@ abbrev MonoFontDrawTarget_into_parent (t : MonoFontDrawTarget) : DrawTargetD := 
 abbrev MonoFontDrawTarget_calls (t : MonoFontDrawTarget) (cs : List Font.BCall) : MonoFontDrawTarget :=
   ⟨t.parent ++ cs.flatMap t.mode.lower, t.mode⟩
 
-/-- NOT regenerated: `draw_string_binary` (with `line_elements`) is the hand model's `drawStringBinary`. -/
-abbrev MonoTextStyle_draw_string_binary (s : MonoTextStyle) (text : Str) (position : Point) (t : MonoFontDrawTarget) :
-    Point × MonoFontDrawTarget :=
-  let r := s.font.f.drawStringBinary s.font.atlas s.st.bgColor.isSome text position
-  (r.2, MonoFontDrawTarget_calls t r.1)
+abbrev BinaryColor := Bool
+abbrev BinaryColor.Off : BinaryColor := false
+abbrev BinaryColor.On : BinaryColor := true
+abbrev MonoFontDrawTarget_fill_solid (t : MonoFontDrawTarget) (area : Rectangle) (c : BinaryColor) : MonoFontDrawTarget :=
+  MonoFontDrawTarget_calls t [Font.BCall.fillSolid area c]
+
+/-- `Image<'_, SubImage<..>>`: a sub-image and the position it is drawn at. -/
+structure Image where
+  sub : SubImage
+  pos : Point
+abbrev Image_new (sub : SubImage) (pos : Point) : Image := ⟨sub, pos⟩
+/-- NOT regenerated (C09's image model): `Image::new(&sub_image, p).draw(target)` = `SubImage::draw` ->
+`ImageRaw::draw_sub_image(target.translated(p), area)`: nothing unless the area is non-empty and completely inside
+the image (the guard of `draw_sub_image`, = `Font.MonoFont.areaDrawable`), else ONE
+`fill_contiguous(Rectangle::new(p, area.size), the area's pixels row-major)`. -/
+abbrev Image_draw (i : Image) (t : MonoFontDrawTarget) : MonoFontDrawTarget :=
+  let a := i.sub.area
+  MonoFontDrawTarget_calls t
+    (if !(a.isZeroSized || decide (a.tl.x < 0) || decide (a.tl.y < 0)
+        || decide (a.tl.x.toNat + a.size.w > i.sub.parent.w) || decide (a.tl.y.toNat + a.size.h > i.sub.parent.h))
+     then [Font.BCall.fillContiguous ⟨i.pos, a.size⟩ (Font.cellBits i.sub.parent.bit a)] else [])
+
+/-! ## `LineElement`, `core::iter::from_fn`, `for` with `return` over it -/
+
+abbrev LineElement := Font.Elem
+@[match_pattern] abbrev LineElement.Char (c : Nat) : LineElement := Font.Elem.char c
+@[match_pattern] abbrev LineElement.Spacing : LineElement := Font.Elem.spacing
+@[match_pattern] abbrev LineElement.Done : LineElement := Font.Elem.done
+
+/-- `Iterator::next` on an iterator variable that is a list of the remaining items: (item, advanced iterator). -/
+abbrev iter_next {α : Type} (l : List α) : Option α × List α := (l.head?, l.tail)
+
+/-- `core::iter::from_fn(move || ..)`: the captured `mut` variables (`state`) and the closure as a step function
+`state -> (returned Option, new state)`. -/
+structure FromFn (σ β : Type) where
+  state : σ
+  step : σ → Option β × σ
+abbrev from_fn_mk {σ β : Type} (state : σ) (step : σ → Option β × σ) : FromFn σ β := ⟨state, step⟩
+
+/-- what one run of a `for` body does: go on with the updated variables, or `return` from the function -/
+inductive ForStep (τ ρ : Type) where
+  | next (acc : τ)
+  | ret (r : ρ)
+
+/-- `for x in from_fn(..) { body }` where the body may `return`: at most `fuel` items are looked at (the iterator
+may be endless; when the fuel is used up the loop counts as finished: the theorems show the value does not depend on
+the fuel once it is `2 * len + 1`). -/
+def for_from_fn {σ β τ ρ : Type} : Nat → FromFn σ β → τ → (τ → β → ForStep τ ρ) → ForStep τ ρ
+  | 0, _, acc, _ => ForStep.next acc
+  | n + 1, it, acc, body =>
+    match it.step it.state with
+    | (none, _) => ForStep.next acc
+    | (some x, s') =>
+      match body acc x with
+      | ForStep.next acc' => for_from_fn n ⟨s', it.step⟩ acc' body
+      | ForStep.ret r => ForStep.ret r
 
 end EG.TextSrcPrelude
